@@ -111,6 +111,9 @@ def artifacts_std(pool, with_prof=False, gcc=True):
          ("gcno", "obj/file.gcno", "llvm_gcno_file"), ("gcda", "obj/file.gcda", "llvm_gcda_file"), ("gcda", "obj/file.gcda", "llvm_gcda_file"),
          ("gcno", "file_branch.gcno", "llvm_gcno_file_branch"), ("gcda", "file_branch.gcda", "llvm_gcda_file_branch"),
          ("gcno", "deep/er/reader.gcno", "llvm_gcno_reader"),                  # orphan gcno
+         # dots inside the stem (CMake: file.c.gcno / file.c.gcda), next to a file.gcda that belongs to nothing
+         ("gcno", "app/file.c.gcno", "llvm_gcno_file"), ("gcda", "app/file.c.gcda", "llvm_gcda_file"), ("gcda", "app/file.gcda", "llvm_gcda_file_branch"),
+         ("gcno", "a.b.c.gcno", "llvm_gcno_reader"), ("gcda", "a.b.c.gcda", "llvm_gcda_reader"), ("gcda", "a.gcda", "gcda_lonely"),
          ("gcda", "lonely.gcda", "gcda_lonely")]                              # orphan gcda
     if gcc:
         a += [("gcno", "gcc/main.gcno", "gcc_gcno_main"), ("gcda", "gcc/main.gcda", "gcc_gcda_main"), ("gcda", "gcc/main.gcda", "gcc_gcda_main"),
